@@ -13,12 +13,117 @@ TRUSTED_BASE = [
     "translators/gen_rabin.py (EMPTY64, FP_TABLE, the per-byte step expression, Default, finish byte order are regenerated from rabin.rs on every run)",
     "hand-written model/CanonicalForm.v of canonical_form.rs, tied by the correspondence run (hook H1 text and fingerprint vs model)",
     "extraction (ExtrOcamlBasic only, no Extract Constant/Inductive of ours) + ocaml/driver.ml (parsing and printing)",
-    "Rust harness avrodrive (schema construction from the case format)",
+    "Rust harness avrodrive (schema construction from the case format; `mutseq` applies the edits of a history through nodes_mut())",
 ]
 ASSUMPTIONS = [
     "CrcSpec.v transcribes the fingerprint64/initFPTable pseudo-code of the Avro specification",
     "canonical form text of the model is tied to canonical_form.rs by differential testing, not by proof",
 ]
+
+
+def nodes_of_sx(sx):
+    """(schema (node TYPE LOGICAL)...) as printed by the model / the harness -> list of gen.Node"""
+    out = []
+    for x in sx[1:]:
+        ty, lt = x[1], x[2]
+        if isinstance(lt, list):
+            lt = ("decimal", int(lt[1]), int(lt[2])) if lt[0] == "decimal" else ("unknown", C.unhex(lt[1]).decode("utf-8"))
+        elif lt == "none":
+            lt = None
+        if not isinstance(ty, list):
+            out.append(G.Node(ty, lt=lt))
+        elif ty[0] == "array":
+            out.append(G.Node("array", items=int(ty[1]), lt=lt))
+        elif ty[0] == "map":
+            out.append(G.Node("map", values=int(ty[1]), lt=lt))
+        elif ty[0] == "union":
+            out.append(G.Node("union", variants=[int(k) for k in ty[1:]], lt=lt))
+        elif ty[0] == "record":
+            out.append(G.Node("record", name=C.unhex(ty[1]).decode("utf-8"),
+                              fields=[(C.unhex(f[0]).decode("utf-8"), int(f[1])) for f in ty[2:]], lt=lt))
+        elif ty[0] == "enum":
+            out.append(G.Node("enum", name=C.unhex(ty[1]).decode("utf-8"), symbols=[C.unhex(y).decode("utf-8") for y in ty[2:]], lt=lt))
+        else:
+            out.append(G.Node("fixed", name=C.unhex(ty[1]).decode("utf-8"), size=int(ty[2]), lt=lt))
+    return out
+
+def copy_node(n):
+    return G.Node(n.t, name=n.name, fields=list(n.fields) if n.fields is not None else None,
+                  symbols=list(n.symbols) if n.symbols is not None else None, size=n.size, items=n.items, values=n.values,
+                  variants=list(n.variants) if n.variants is not None else None, lt=n.lt)
+
+def random_edit(rng, nodes):
+    """-> ("set", k, node) | ("push", node): one edit of the graph as nodes_mut() allows it -- mostly edits that keep the schema valid
+    and change its canonical form (size, symbols, names, fields, element types), some that leave it unchanged (logical type,
+    same node again), some arbitrary (any key)"""
+    n = len(nodes)
+    k = rng.randrange(n)
+    old = nodes[k]
+    new = copy_node(old)
+    r = rng.random()
+    if r < 0.08:
+        return ("push", G.Node(rng.choice(G.PRIMS)))
+    if r < 0.16:
+        return ("set", k, new)                                   # same node written again
+    if old.t == "fixed":
+        if rng.random() < 0.6:
+            new.size = old.size + rng.choice([1, 2, 7])
+        else:
+            new.name = old.name + "_r"
+    elif old.t == "enum":
+        c = rng.random()
+        if c < 0.4:
+            new.symbols = old.symbols + ["N%d" % len(old.symbols)]
+        elif c < 0.6 and old.symbols:
+            new.symbols = old.symbols[:-1] + [old.symbols[-1] + "x"]
+        elif c < 0.8:
+            new.symbols = list(reversed(old.symbols)) if len(old.symbols) > 1 else old.symbols + ["Z"]
+        else:
+            new.name = old.name + "_r"
+    elif old.t == "record":
+        c = rng.random()
+        if c < 0.35:
+            new.fields = old.fields + [("e%d" % len(old.fields), rng.randrange(n))]
+        elif c < 0.5 and old.fields:
+            new.fields = old.fields[1:]
+        elif c < 0.65 and len(old.fields) > 1:
+            new.fields = list(reversed(old.fields))
+        elif c < 0.8 and old.fields:
+            new.fields = [(old.fields[0][0] + "_", old.fields[0][1])] + old.fields[1:]
+        else:
+            new.name = rng.choice([old.name + "_r", "moved." + old.name.rpartition(".")[2]])
+    elif old.t == "array":
+        new.items = rng.randrange(n)
+    elif old.t == "map":
+        new.values = rng.randrange(n)
+    elif old.t == "union":
+        if rng.random() < 0.5 and old.variants:
+            new.variants = old.variants[1:] + old.variants[:1]
+        else:
+            new.variants = old.variants + [rng.randrange(n)]
+    else:
+        if rng.random() < 0.7:
+            new = G.Node(rng.choice([p for p in G.PRIMS if p != old.t]))
+        else:
+            new.lt = rng.choice([None, "uuid", "date", "timestamp-millis"])
+    return ("set", k, new)
+
+def histories(rng, n):
+    """operation sequences on ONE SchemaMut: observations (fingerprint + canonical form, JSON, freeze) interleaved with edits through
+    nodes_mut(), touches (nodes_mut() without a change) and clones. -> list of (harness line, [(kind, graph at that point, edited?)])"""
+    import docgen as D
+    out = []
+    while len(out) < n:
+        if rng.random() < 0.5:
+            nodes = D.NameGraphGen(rng, logical=True).build()
+        else:
+            nodes = G.SchemaGen(rng, max_nodes=rng.choice([3, 8, 16]), max_depth=rng.choice([2, 4])).build()
+        start_json = None
+        if rng.random() < 0.4:
+            doc = D.DocGen(rng, nodes, forward=0.0).gen(0, None)
+            start_json = (doc, D.to_text(doc, rng))
+        out.append((nodes, start_json, rng.randrange(1 << 30)))
+    return out
 
 def cases(rng, n):
     out = []
@@ -103,14 +208,106 @@ def run(ctx):
         if pb[0] == "ok" and pb[3] != pa[3]:
             violations.append({"impl_case": "parse " + C.hx(t2[k]), "what": "two JSON spellings of the same schema have different fingerprints",
                                "a": t1[k][:300], "b": t2[k][:300]})
+    # 4. histories on one SchemaMut value: fingerprint / canonical form / JSON / freeze observed before and after edits through
+    #    nodes_mut(); every observation must be the model's value for the graph as it is AT THAT POINT (and the fingerprint the
+    #    specification checksum of the canonical form text reported at that same point)
+    nh = 250 if ctx["tier"] == "quick" else 8000
+    hs = histories(rng, nh)
+    pm = iter(C.run_parallel(C.AVROMODEL, ["parse " + D.to_sx(h[1][0]) for h in hs if h[1] is not None]))
+    hlines, hobs = [], []
+    for nodes, start_json, hseed in hs:
+        r2 = random.Random(hseed)
+        if start_json is not None:
+            p = C.parse_sx(next(pm))[0]
+            if p[0] != "ok":
+                continue
+            cur = nodes_of_sx(p[1])
+            start = "(json %s)" % C.hx(start_json[1])
+        else:
+            cur = [copy_node(x) for x in nodes]
+            start = G.schema_sx(cur)
+        ops, obs, edited = [], [], False
+        plan = [r2.choice(["fp", "fp", "fp", "json", "touch", "clone", "edit", "edit", "edit", "freeze"]) for _ in range(r2.randint(2, 7))] + ["fp", "freeze"]
+        if r2.random() < 0.5:
+            plan = ["fp"] + plan
+        for o in plan:
+            if o == "edit":
+                e = random_edit(r2, cur)
+                cur = [copy_node(x) for x in cur]
+                if e[0] == "push":
+                    cur.append(e[1]); ops.append("(push %s)" % G.node_sx(e[1]))
+                else:
+                    cur[e[1]] = e[2]; ops.append("(set %d %s)" % (e[1], G.node_sx(e[2])))
+                edited = True
+            elif o == "touch":
+                ops.append("touch"); edited = True
+            elif o == "clone":
+                ops.append("clone")
+            else:
+                ops.append(o)
+                obs.append((o, G.schema_sx(cur), None if edited or start_json is None else D.minified(start_json[0])))
+        hlines.append("mutseq " + start + " " + " ".join(ops))
+        hobs.append(obs)
+    hi = C.run_parallel(C.AVRODRIVE, hlines)
+    want_fp = {}
+    keys = sorted({g for obs in hobs for _, g, _ in obs})
+    for g, a, b in zip(keys, C.run_parallel(C.AVROMODEL, ["fp " + g for g in keys]), C.run_parallel(C.AVROMODEL, ["freeze " + g for g in keys])):
+        want_fp[g] = (C.parse_sx(a)[0], C.parse_sx(b)[0])
+    crc_lines, crc_at = [], []
+    nobs = 0
+    for line, obs, ri in zip(hlines, hobs, hi):
+        pr = C.parse_sx(ri)[0] if ri.startswith("(") else ["crash"]
+        if pr[0] != "ok" or len(pr) - 1 != len(obs):
+            violations.append({"impl_case": line, "what": "a history of fingerprint / edit operations on a SchemaMut did not complete: %s" % ri[:200]})
+            continue
+        distinct.add(line)
+        for step, ((kind, g, original), got) in enumerate(zip(obs, pr[1:])):
+            nobs += 1
+            mfp, mfz = want_fp[g]
+            if kind == "fp":
+                if got[0] == "fp":
+                    crc_lines.append("rabin " + got[2]); crc_at.append((line, step, got))
+                if mfp[0] == "outoffuel":
+                    continue
+                if (got[0] == "fp") != (mfp[0] == "ok"):
+                    diffs.append({"impl_case": line, "model_case": "fp " + g, "impl": C.show_sx(got)[:300], "model": C.show_sx(mfp)[:300], "step": step})
+                elif got[0] == "fp" and (got[1] != mfp[1] or got[2] != mfp[2]):
+                    violations.append({"impl_case": line, "what": "fingerprint / canonical form observed at step %d of a history (after edits through nodes_mut) "
+                                       "is not that of the graph at that point" % step, "graph_now": g[:600],
+                                       "got": [got[1], C.unhex(got[2]).decode("utf-8", "replace")[:300]],
+                                       "expected": [mfp[1], C.unhex(mfp[2]).decode("utf-8", "replace")[:300]]})
+            elif kind == "freeze":
+                if mfz[0] == "outoffuel":
+                    continue
+                if (got[0] == "frozen") != (mfz[0] == "ok"):
+                    diffs.append({"impl_case": line, "model_case": "freeze " + g, "impl": C.show_sx(got)[:300], "model": C.show_sx(mfz)[:300], "step": step})
+                elif got[0] == "frozen":
+                    if got[1] != mfz[1]:
+                        violations.append({"impl_case": line, "what": "fingerprint of the schema frozen at step %d of a history is not that of the graph at that point" % step,
+                                           "graph_now": g[:600], "got": got[1], "expected": mfz[1]})
+                    want_json = C.hx(original) if original is not None else mfz[2]
+                    if got[2] != want_json:
+                        diffs.append({"impl_case": line, "model_case": "freeze " + g, "impl": C.show_sx(got)[:400], "model": want_json[:400], "step": step})
+            else:
+                # serde_json::to_string(&SchemaMut) always regenerates the document from the nodes (the stored text is only used by freeze)
+                want_json = mfz[2] if mfz[0] == "ok" else None
+                if want_json is not None and (got[0] != "json" or got[1] != want_json):
+                    diffs.append({"impl_case": line, "model_case": "freeze " + g, "impl": C.show_sx(got)[:400], "model": want_json[:400], "step": step})
+    for (line, step, got), rs in zip(crc_at, C.run_parallel(C.AVROMODEL, crc_lines)):
+        exp = C.parse_sx(rs)[0][2]
+        if exp != got[1]:
+            violations.append({"impl_case": line, "what": "fingerprint observed at step %d of a history differs from le64(crc64_avro(canonical form reported at the same step))" % step,
+                               "fingerprint": got[1], "expected": exp, "canonical_form": C.unhex(got[2]).decode("utf-8", "replace")[:400]})
     return {
-        "evaluations": len(lines) + 2 * len(docs),
+        "evaluations": len(lines) + 2 * len(docs) + nobs,
         "distinct_nontrivial": len(distinct),
         "rule": "node graphs (arbitrary UTF-8 names in fixed nodes; random valid schemas with sharing and logical types); "
                 "distinct = distinct canonical form texts accepted by the crate; each compared (a) fingerprint and text "
                 "model vs crate, (b) crate fingerprint vs extracted specification checksum of the crate's text; (c) generated documents in two "
                 "random spellings each: fingerprint = extracted CRC of the extracted PcfSpec.pcf of the document (independent of the crate's "
-                "traversal), equal for both spellings",
+                "traversal), equal for both spellings; (d) histories on one SchemaMut value (built or parsed): fingerprint + canonical form, JSON, freeze "
+                "observed before and after edits through nodes_mut() (sizes, symbols, names, fields, element keys, pushes), no-op nodes_mut() and "
+                "clones: every observation = the model's value for the graph at that point, fingerprint = extracted CRC of the text reported there",
         "samples": samples,
         "violations": violations,
         "model_diffs": diffs,
